@@ -12,6 +12,7 @@ def main():
     import atheris
     with atheris.instrument_imports(include=['graphtage.expressions']):
         import graphtage.expressions  # noqa: F401
+    from vf import common
     from vf.props import c19
     found = {}
     stats = {'execs': 0, 'parsed_ok': 0}
@@ -27,9 +28,18 @@ def main():
             return
         if len(s) > 200:
             return
+        # the normal path (core.run_check) resets the per-case budgets; here it has to be done by hand, otherwise the
+        # loop budget is spent by the campaign as a whole and libFuzzer stops at the resulting exception
+        common.LOOPS.reset(20000000)
+        common.WIDEN.reset() if hasattr(common.WIDEN, 'reset') else None
         try:
             out = c19.check({'expr': s})
         except RecursionError:
+            return
+        except Exception as e:      # budget hits and anything else: report through the normal path, keep fuzzing
+            key = f'raised:{type(e).__name__}:{str(e)[:40]}'
+            if key not in found and len(found) < 50:
+                found[key] = {'expr': s, 'detail': str(e)[:200]}
             return
         if 'evaluated' in out.labels:
             stats['parsed_ok'] += 1
@@ -45,7 +55,8 @@ def main():
         with open(out_path, 'w') as f:
             json.dump({'found': found, 'stats': stats}, f)
     sys.stderr = open(os.devnull, 'w')
-    atheris.Setup([sys.argv[0], corpus, f'-runs={runs}', f'-seed={seed or 1}', '-max_len=120', '-verbosity=0', '-print_final_stats=0'],
+    atheris.Setup([sys.argv[0], corpus, f'-runs={runs}', f'-seed={seed or 1}', '-max_len=120', '-verbosity=0', '-print_final_stats=0',
+                   f'-artifact_prefix={os.path.dirname(os.path.abspath(out_path))}/'],
                   one)
     try:
         atheris.Fuzz()
